@@ -269,15 +269,29 @@ def simpler(v):
                 yield {k: x}
 
 
+def minimal_values(ctx, v, cls, _depth=0):
+    """Minimal failing values reachable from v by the `simpler` relation (evaluated on demand: a
+    simpler value need not be a member of the enumerated plan)."""
+    smaller = [s for s in simpler(v) if in_domain(s, ctx in LIST_CONTEXTS) and any(c == cls for c, _ in check(ctx, s))]
+    if not smaller or _depth > 6:
+        return [v]
+    out = []
+    for s in smaller:
+        for m in minimal_values(ctx, s, cls, _depth + 1):
+            if not any(same(m, o) for o in out):
+                out.append(m)
+    return out
+
+
 def work(items):
     n = 0
     fails = []
     for ctx, v in items:
         n += 1
         for cls, detail in check(ctx, v):
-            if any(in_domain(s, ctx in LIST_CONTEXTS) and any(c == cls for c, _ in check(ctx, s)) for s in simpler(v)):
-                continue
-            fails.append((f"{cls}|{ctx}|{v!r}", cls, {"kind": "c13", "ctx": ctx, "value": _enc(v)}, detail, f"{cls}@{type(v).__name__}"))
+            for m in minimal_values(ctx, v, cls):
+                det = next((d for c, d in check(ctx, m) if c == cls), detail)
+                fails.append((f"{cls}|{ctx}|{m!r}", cls, {"kind": "c13", "ctx": ctx, "value": _enc(m)}, det, f"{cls}@{type(m).__name__}"))
     return n, fails
 
 
